@@ -13,7 +13,7 @@ UNITS = {
     'pmeth': 'PhoneticMethod under an adversarial environment (new, key, backspace, commit, update_engine)',
     'data': 'Data::new: the bundled tables are a function of the data directory alone; Data::find_suffix / search_corrected are the look-ups in those tables',
     'split': 'SplittedString::split (the real three-way split: find + right-to-left char_indices scan + split_at) against split_spec',
-    'fixed_search': 'clean_string (the punctuation the fixed-method dictionary search ignores; regex-safe search key)',
+    'fixed_search': 'search_dictionary + clean_string: the real fixed-method dictionary search (first-letter table, cleaned key, pattern, filter / map closures incl. the traditional-joining loop, extend) against sd_list',
     'layout_get': 'Layout::layout_get_value / layout_get_value_numpad: entry name, empty = none, key pad only with the option on',
 }
 
@@ -29,7 +29,7 @@ PLAN = {
         'units': ['fixed_pkv_common', 'fixed_reph', 'fixed_session', 'layout', 'layout_get', 'rank', 'util', 'phon', 'pmeth', 'data', 'split', 'fixed_search'],
         'technique': 'Verus built-in safety obligations (unwrap/index/slice/overflow/termination) on extracted real functions under data-structure invariants',
         'claim': 'Every extracted riti function (both methods, Rank/Suggestion, layout, utility) is proved free of panics, failed unwraps, out-of-bounds or off-boundary slices, arithmetic overflow and non-termination for ALL inputs satisfying the stated invariants (ASCII buffer, memo transparency, in-range commit index), and every API operation is proved to re-establish those invariants; keys without a character are ignored; a memo entry is proved to hold the direct hits of its word only, so the suffix pass multiplies lists whose size does not depend on the history.',
-        'note': COMMON_TRUST + 'Not decided: panics inside okkhor/regex/poriborton/emojicon, sort panic-freedom for non-total comparators, RefCell double borrow, time complexity beyond termination; T2 functions (search_dictionary, include_from_dictionary) only have assumed contracts here; internal_backspace_step is proved in unit fixed_reph (std contracts for Take::fold, String::len / truncate in byte offsets are T3); SplittedString::split is proved in unit split (std contracts of str::find with a closure and char_indices are T3; the UTF-8 offset facts are proved from vstd::utf8).',
+        'note': COMMON_TRUST + 'Not decided: panics inside okkhor/regex/poriborton/emojicon, sort panic-freedom for non-total comparators, RefCell double borrow, time complexity beyond termination; the only T2 function left is include_from_dictionary (flat_map: no vstd model); search_dictionary / clean_string are proved in unit fixed_search; internal_backspace_step is proved in unit fixed_reph (std contracts for Take::fold, String::len / truncate in byte offsets are T3); SplittedString::split is proved in unit split (std contracts of str::find with a closure and char_indices are T3; the UTF-8 offset facts are proved from vstd::utf8).',
     },
     'C02': {
         'bounded': ['phonetic_api', 'fixed_api'],
@@ -141,7 +141,7 @@ PLAN = {
         'units': ['fixed_session', 'fixed_search'],
         'technique': 'Verus: functional postcondition list == fx_list(text, raw keys, options, data) for create_dictionary_suggestion, with lemma 1 <= len <= 9',
         'claim': 'Proof that the fixed-method list is exactly: First(word) + dictionary matches, adjacent duplicates removed, wrapped in the (curled) punctuation, emoji added, sorted, cut to nine (eight + raw keys when English is on and the text differs from the keys), for all inputs.  Statement clauses at spec level (lemma_c15_list over that function): the first candidate is the composed text with curling applied (the only First-ranked item, whatever the unstable sort does with ties), non-emoji candidates are in non-decreasing rank number (10 x distance), the raw key text is last when English is on and the text differs from the keys, between one and nine candidates.',
-        'note': COMMON_TRUST + 'search_dictionary (regex) is T2: assumed contract fx_dict (that its candidates are prefix completions, carry 10 x their edit distance and do not repeat non-adjacently is checked by the bounded check fixed_api with an independent oracle); ordering rests on one axiom about std sort_unstable (sorted permutation w.r.t. the proved comparator key; nothing assumed about ties) + data preconditions (distance <= 25, at most nine emoji per Bengali name).',
+        'note': COMMON_TRUST + 'search_dictionary and clean_string are PROVED in unit fixed_search on the real body (fx_dict is defined as sd_list: the words of the first-letter table, in table order, that the pattern ^<cleaned key>[letters]{0,n}$ matches, each as Other(form, 10 x edit distance from the typed word), form = non-joiner before every u / uu / ri sign with traditional joining); lemma_sd_list_sound: every such candidate is a dictionary word that begins with the typed word once the ignored punctuation is removed.  Assumed there (T3): the regex crate (a cleaned key gives a pattern that compiles; a match of the anchored pattern has the key as a prefix -- stated for the pinned format string only), the edit-distance crate, Data::get_words_for, Vec::extend over a Map drains it and applies the closure in order, chars().any as a same-bodied wrapper; data precondition: 10 x distance of a hit fits u8.  The bounded check fixed_api stays as an independent cross-check of these assumptions (regex-special punctuation inside the word, hasanta-final words); ordering rests on one axiom about std sort_unstable (sorted permutation w.r.t. the proved comparator key; nothing assumed about ties) + data preconditions (distance <= 25, at most nine emoji per Bengali name).',
     },
     'C16': {
         'bounded': ['ansi', 'fixed_api', 'phonetic_api', 'update_engine'],
